@@ -5,6 +5,7 @@ import genre
 import implre
 import implsel
 from props import C10 as _C10
+import directed
 
 DESCRIPTION = ("Lean: Props/C03.lean ((a) decision table: which members of a class are guarded and by which invariants, for "
                "every name string and member kind; (b) in the frame semantics no invariant is evaluated during construction, all "
@@ -73,8 +74,13 @@ def sel_cases():
                                        "members": members, "builtin_base": bb}
 
 
+run_directed = directed.run
+
+
 def cases(tier, rng):
     thorough = tier == "thorough"
+    for c in directed.member_added_between_invariants_cases():
+        yield "directed-member-added-between-invariants", c
     for c in sel_cases():
         yield "select", c
     for _ in range(8000 if thorough else 1200):
